@@ -1,7 +1,7 @@
 """C06 — typed vs generic reads, shape type identity (finite tables, E1 + E3)."""
 import re
 
-from .. import absint, util, mir
+from .. import absint, util, mir, discipline
 from ..absint import is_agg, agg_field
 
 
@@ -292,36 +292,61 @@ def _run(ctx):
         sites = [s for s, w in I.fallible_sites if 'try_from' in w]
         pushes = [e for p in ps for e in absint.flat_effects(p.eff) if e[0] == 'push']
         conv = [e for p in ps for e in absint.flat_effects(p.eff) if e[0] == 'call' and 'try_from' in e[1]]
-        ok = bool(pushes) and bool(conv) and all(any(absint.contains(pu[2], c[-1]) for c in conv) for pu in pushes)
-        ctx.ob("C06.bulk", "push converted", ok, "every push stores the result of S::try_from (%d pushes)" % len(pushes),
-               site=ctx.site_of(F, f["def"]))
-        okf = bool(sites)
-        for s in set(sites):
-            ps2, _ = util.run_fn(F, f, fail_site=s)
-            errp = [p for p in ps2 if any(absint.contains(p.ret, ('err', s)) for _ in [0]) and is_agg(p.ret, None, 'Err')]
-            reach = [p for p in ps2 if any(e for e in absint.flat_effects(p.eff) if e[0] == 'call' and e[4] == s)]
-            # every path on which the failing call happened must return Err(e)
-            for p in reach:
-                if not (is_agg(p.ret, None, 'Err') and absint.contains(p.ret, ('err', s))):
+        # the same function written as `shapes.into_iter().map(|s| S::try_from(s)..).collect::<Result<Vec<S>, _>>()`: collecting
+        # into a Result visits the elements in order and stops at the first Err, exactly as `?` in a loop does
+        chain = [p for p in ps if p.status == 'return' and p.ret[0] == 'collect' and p.ret[1][0] == 'map' and
+                 p.ret[1][1] == ('into_iter', ('param', 1)) and p.ret[1][2][0] == 'closure']
+        if chain and len(chain) == len(ps) and not pushes and f["locals"][0]["ty"].startswith("std::result::Result<std::vec::Vec<"):
+            g_ = F.fns.get(chain[0].ret[1][2][1])
+            okc = g_ is not None
+            if okc:
+                sites_c, paths_c, err_c = discipline.fallible_sites(F, g_)
+                tf = [(s_, w) for s_, w in (sites_c or []) if 'try_from' in w]
+                okc = len(tf) == 1 and all(
+                    len([e for e in q.eff if e[0] == 'call' and 'try_from' in e[1] and e[3] and e[3][0] == ('param', 2)]) == 1 for q in paths_c)
+                if okc:
+                    for q in absint.Interp(F, inline=discipline.modular_inline, fail_site=tf[0][0]).run(g_):
+                        if any(x == tf[0][0] for x, _ in discipline.site_effects(q)) and not discipline.carries_error(q.ret, ('err', tf[0][0])):
+                            okc = False
+            ctx.ob("C06.bulk", "push converted", okc, "map(|s| S::try_from(s)) over the input, collected into Result<Vec<S>, _>",
+                   site=ctx.site_of(F, f["def"]))
+            ctx.ob("C06.bulk", "first error returned", okc, "collect::<Result<_, _>>() stops at the first failing S::try_from and returns it",
+                   site=ctx.site_of(F, f["def"]))
+            from .C20 import REORDER
+            bad = sorted(set(mir.callee_decl(t) for g in [f, g_] if g for b, t in mir.calls(g) if mir.callee_decl(t) in REORDER))
+            ctx.ob("C06.bulk", "one forward pass", okc and not bad, ("uses %s" % bad) if bad else "one map over into_iter() of the input, no reordering adaptor",
+                   site=ctx.site_of(F, f["def"]), key="C06.bulk|forward")
+            pushes = conv = None
+        if pushes is not None:
+            ok = bool(pushes) and bool(conv) and all(any(absint.contains(pu[2], c[-1]) for c in conv) for pu in pushes)
+            ctx.ob("C06.bulk", "push converted", ok, "every push stores the result of S::try_from (%d pushes)" % len(pushes),
+                   site=ctx.site_of(F, f["def"]))
+            okf = bool(sites)
+            for s in set(sites):
+                ps2, _ = util.run_fn(F, f, fail_site=s)
+                errp = [p for p in ps2 if any(absint.contains(p.ret, ('err', s)) for _ in [0]) and is_agg(p.ret, None, 'Err')]
+                reach = [p for p in ps2 if any(e for e in absint.flat_effects(p.eff) if e[0] == 'call' and e[4] == s)]
+                # every path on which the failing call happened must return Err(e)
+                for p in reach:
+                    if not (is_agg(p.ret, None, 'Err') and absint.contains(p.ret, ('err', s))):
+                        okf = False
+                if not errp:
                     okf = False
-            if not errp:
-                okf = False
-        ctx.ob("C06.bulk", "first error returned", okf, "a failing S::try_from makes the function return that error",
-               site=ctx.site_of(F, f["def"]))
-        # in order, from the first: the shapes are visited by one forward pass over the input (so the first failing one is reported)
-        from .C20 import REORDER
-        bad = sorted(set(mir.callee_decl(t) for g in [f] + [h for h in F.identity_fns() if h["def"].startswith(f["def"] + "::{closure")]
-                         for b, t in mir.calls(g) if mir.callee_decl(t) in REORDER))
-        loops = [e for p in ps for e in absint.flat_effects(p.eff) if e[0] == 'loop']
-        fwd = bool(loops) and all(absint.term_str(lp[2].get('iter')) in ('into_iter(arg1)', 'iter(arg1)', 'iter(*arg1)') for lp in loops)
-        ctx.ob("C06.bulk", "one forward pass", not bad and fwd,
-               ("uses %s" % bad) if bad else ("loops over %s" % sorted(set(absint.term_str(lp[2].get('iter'))[:50] for lp in loops)) if not fwd
-                                               else "a single loop over the input vector, first to last, no reordering adaptor"),
-               site=ctx.site_of(F, f["def"]), key="C06.bulk|forward")
+            ctx.ob("C06.bulk", "first error returned", okf, "a failing S::try_from makes the function return that error",
+                   site=ctx.site_of(F, f["def"]))
+            # in order, from the first: the shapes are visited by one forward pass over the input (so the first failing one is reported)
+            from .C20 import REORDER
+            bad = sorted(set(mir.callee_decl(t) for g in [f] + [h for h in F.identity_fns() if h["def"].startswith(f["def"] + "::{closure")]
+                             for b, t in mir.calls(g) if mir.callee_decl(t) in REORDER))
+            loops = [e for p in ps for e in absint.flat_effects(p.eff) if e[0] == 'loop']
+            fwd = bool(loops) and all(absint.term_str(lp[2].get('iter')) in ('into_iter(arg1)', 'iter(arg1)', 'iter(*arg1)') for lp in loops)
+            ctx.ob("C06.bulk", "one forward pass", not bad and fwd,
+                   ("uses %s" % bad) if bad else ("loops over %s" % sorted(set(absint.term_str(lp[2].get('iter'))[:50] for lp in loops)) if not fwd
+                                                   else "a single loop over the input vector, first to last, no reordering adaptor"),
+                   site=ctx.site_of(F, f["def"]), key="C06.bulk|forward")
 
 
     # --- C06.forward --------------------------------------------------------------------------
-    from .. import discipline
     from .C14 import iterator_next
     fns = []
     fn = iterator_next(F)
